@@ -176,6 +176,31 @@ def run_case(case, workdir):
                 nfiles = len([f for f in os.listdir(os.path.join(out, "Level_0")) if f.startswith("Cell_D")])
                 rec.outcome("files=%d" % nfiles)
             shutil.rmtree(out, ignore_errors=True)
+    # histories on ONE Mandoline object: several plotfile-format slices, each compared with a fresh object's output
+    if case["kind"] == "mesh":
+        from ..refmodel import tree_digest
+        seqm = [positions[len(positions) // 2], positions[0], positions[len(positions) // 4], positions[-1], positions[len(positions) // 2]]
+        for serial in (True, False):
+            def fresh(m_):
+                o = os.path.join(workdir, "fresh")
+                shutil.rmtree(o, ignore_errors=True)
+                with vpool.controlled():
+                    with poisoned(MODS, 0):
+                        r = call(lambda: Mandoline(path, fields=["A", "C", "G"], serial=serial, verbose=0).slice(normal=n, pos=sm.pos_of(m_), outfile=o, fformat="plotfile"))
+                return r[0], (tree_digest(o) if r[0] == "ok" else None)
+            with vpool.controlled():
+                with poisoned(MODS, 0):
+                    mo = Mandoline(path, fields=["A", "C", "G"], serial=serial, verbose=0)
+                    for k2, m_ in enumerate(seqm):
+                        o = os.path.join(workdir, "hist")
+                        shutil.rmtree(o, ignore_errors=True)
+                        st, val = call(lambda: mo.slice(normal=n, pos=sm.pos_of(m_), outfile=o, fformat="plotfile"))
+                        got = (st, tree_digest(o) if st == "ok" else None)
+                        rec.exe([dh, "history", serial, k2], trans=1)
+                        exp_ = fresh(m_)
+                        if got != exp_:
+                            rec.fail("history_dependent", {"normal": n, "serial": serial, "call": k2, "positions": seqm},
+                                     "slice %d on a re-used Mandoline object wrote another tree than a fresh object" % k2)
     rec.sample({"desc": {k_: v for k_, v in desc.items() if k_ != "levels"} if case["kind"] == "split" else desc,
                 "normal": n, "positions": len(positions)})
     return rec.result()
